@@ -13,7 +13,12 @@ Drivers/C13.lean) and pyyeti.nastran.bulk:
            (float(Fraction) == value the code returns).
 
 The model-free oracle restates the property on the API: read(write(x)) == x for every pair, including
-GRID / CORD2x / uset2bulk / bulk2uset and real / complex DMIG with non-integer values.
+GRID / CORD2x / uset2bulk / bulk2uset and real / complex DMIG with non-integer values.  Coordinate values
+are drawn with mixed magnitudes (up to ~12 decades on one card, tiny non-zero components next to large
+ones) and each value is compared to the precision of the written format relative to its own magnitude
+({:16.8e}: 9 significant digits; the writer's documented noise floor is 1e-15 of the card's largest value);
+form-9 DMIG uses column numbers that are not 1..n and is read back both by default and with expanded=True
+(header NCOL = largest column number).
 """
 import io
 import itertools
@@ -33,7 +38,7 @@ THEOREMS = [
     for n in (
         "thru_roundtrip thru_maximal nasints_layout nasints_columns spoint_roundtrip csuper_roundtrip "
         "extrn_roundtrip set_wrap_roundtrip wrap_line_length tabled1_layout fixed_field_slicing "
-        "dmig_structure dmig_form6_iff dmig_roundtrip"
+        "dmig_structure dmig_form6_iff dmig_roundtrip dmig_ncol_form9 dmig_header_ncol"
     ).split()
 ]
 TRUSTED = [
@@ -56,6 +61,8 @@ RULE = (
     "a continuation or a non-default form; distinct by the canonical input"
 )
 ASSUMPTIONS = [
+    "wtcoordcards zeroes values below 1e-15 of the largest value on the card (documented noise floor): coordinate "
+    "cards are generated with at most ~12 decades between their values",
     "wtdmig's symmetry test is np.allclose(m.T, m): a square frame symmetric within those tolerances is symmetric by "
     "the writer's definition (written as form 6 from its lower triangle); test matrices are exactly symmetric or "
     "asymmetric well above the tolerance, anything in between is skipped and counted",
@@ -1093,10 +1100,107 @@ def _o_dmig(case, known):
                     break
             if bad:
                 break
+    if not bad and d["single"]:
+        bad9 = _o_dmig_form9(d, a, text)
+        if bad9:
+            return [bad9]
     if not bad:
         return []
     fam = fam or ("dmig-roundtrip-form%d-type%d" % (form, d["mtype"]))
     return [(fam, "rddmig(wtdmig(x)) != x: " + bad[0], bad[1], bad[2])]
+
+
+def _val_tol(form1, x):
+    """half a unit in the last place of `form1.format(x)` (relative for e/E formats, absolute for f)"""
+    s1 = form1.format(x).strip().upper()
+    if "E" in s1:
+        mant = s1.split("E")[0]
+        digits = len(mant.split(".")[1]) if "." in mant else 0
+        if x == 0:
+            return 0.0
+        return 0.5000001 * 10.0 ** (int(s1.split("E")[1]) - digits) + 4 * np.spacing(abs(x))
+    digits = len(s1.split(".")[1]) if "." in s1 else 0
+    return 0.5000001 * 10.0 ** (-digits) + 4 * np.spacing(abs(x))
+
+
+def _mixed(rng, lo=-6, hi=6, zero=0.15):
+    """a value whose magnitude is drawn log-uniformly over `hi - lo` decades (sometimes exactly 0)"""
+    if rng.random() < zero:
+        return 0.0
+    return rng.choice([-1.0, 1.0]) * rng.uniform(1.0, 9.999) * 10.0 ** rng.randint(lo, hi)
+
+
+def _o_cord(case):
+    """wtcoordcards -> the nine A/B/C fields as read by rdcards, each to the written precision
+    ({:16.8e}: 9 significant digits of ITS OWN magnitude); then rdcord2cards on the same text"""
+    from pyyeti.nastran import n2p
+
+    bulk = _bulk()
+    ci = {}
+    for cid, typ, ref, abc in case["systems"]:
+        name = {1: "CORD2R", 2: "CORD2C", 3: "CORD2S"}[typ]
+        ci[cid] = [name, np.vstack([[cid, typ, ref], np.array(abc, dtype=float)])]
+    text = _write(bulk.wtcoordcards, ci)
+    if text.startswith("error"):
+        return ("wtcoordcards-raises", "wtcoordcards raises", text, "CORD2x cards")
+    if any(len(l) > 73 for l in text.split("\n")):
+        return ("cord2-line-too-long", "a CORD2x line exceeds 72 columns + continuation mark", text[:300], "<= 73 columns")
+    cards = _read(bulk.rdcards, text, "cord2", return_var="list")
+    if isinstance(cards, str) or cards is None or len(cards) != len(ci):
+        return ("cord2-cards", "rdcards does not find the written CORD2x cards", str(cards)[:200], "%d cards" % len(ci))
+    for card, (cid, typ, ref, abc) in zip(cards, case["systems"]):
+        flat = [v for row in abc for v in row]
+        if len(card) != 11 or card[0] != cid or card[1] != ref:
+            return ("cord2-roundtrip-ids", "CORD2x id / reference id differ", card[:3], [cid, ref])
+        big = max(abs(v) for v in flat)
+        for k, (got, want) in enumerate(zip(card[2:], flat)):
+            # the writer documents a noise floor of 1e-15 of the largest value on the card
+            if abs(float(got) - want) > _val_tol("{:16.8e}", want) + 1e-15 * big:
+                span = "%.0e" % (abs(want) / big) if big else "0"
+                return ("cord2-small-value-lost" if float(got) == 0.0 else "cord2-values",
+                        "CORD2x field %s%d of system %d differs by more than 9 significant digits "
+                        "(value/largest on card = %s)" % ("ABC"[k // 3], k % 3 + 1, cid, span), float(got), want)
+    return None
+
+
+def _o_dmig_form9(d, a, text):
+    """form 9: the header NCOL must be the largest column number; rddmig(expanded=True) rebuilds
+    columns 1..NCOL and puts every written column at its own number"""
+    bulk = _bulk()
+    colnums = [c for c, _ in d["colids"]]
+    want_ncol = max(colnums)
+    head = text.split("\n")[0]
+    contig = "contiguous-from-1" if sorted(colnums) == list(range(1, len(colnums) + 1)) else "noncontiguous-columns"
+    fam = "dmig-form9-ncol-" + contig
+    try:
+        ncol = int(head[64:72])
+    except ValueError:
+        return (fam, "form-9 header has no NCOL field", head, want_ncol)
+    if ncol != want_ncol:
+        return (fam, "form-9 header NCOL is not the largest column number", ncol, want_ncol)
+    g = _read(bulk.rddmig, text, expanded=True)
+    if isinstance(g, str) or d["name"].lower() not in g:
+        return ("dmig-form9-expanded-raises", "rddmig(expanded=True) fails on a written form-9 matrix", str(g)[:200], "a DataFrame")
+    g = g[d["name"].lower()]
+    if [int(c) for c in g.columns.tolist()] != list(range(1, want_ncol + 1)):
+        return (fam, "rddmig(expanded=True) columns are not 1..max column number", [int(c) for c in g.columns.tolist()],
+                list(range(1, want_ncol + 1)))
+    grow = [(int(x), int(y)) for x, y in g.index.tolist()]
+    gv = g.values
+    for i, r in enumerate(d["rowids"]):
+        if not a[i].any():
+            continue
+        if r not in grow:
+            return ("dmig-form9-expanded-rows", "a written row label is missing from rddmig(expanded=True)", grow[:12], r)
+        for j, c in enumerate(colnums):
+            x, y = complex(a[i, j]), complex(gv[grow.index(r), c - 1])
+            if abs(x.real - y.real) > 5.05e-10 * abs(x.real) + 1e-300 or abs(x.imag - y.imag) > 5.05e-10 * abs(x.imag) + 1e-300:
+                return (fam, "rddmig(expanded=True): value at row %s column %d differs" % (r, c), [y.real, y.imag], [x.real, x.imag])
+    # every other position of the expanded matrix is zero
+    nz = int(np.count_nonzero(gv))
+    if nz != int(np.count_nonzero(a)):
+        return (fam, "rddmig(expanded=True) has a different number of non-zero terms", nz, int(np.count_nonzero(a)))
+    return None
 
 
 def _o_grids(case):
@@ -1111,7 +1215,6 @@ def _o_grids(case):
     n = len(ids)
     if isinstance(g, str) or g is None or g.shape != (n, 8):
         return ("grid-roundtrip", "rdgrids fails / wrong shape", str(g)[:200], "(%d, 8) array" % n)
-    tol = 0.5000001 * 10.0 ** (-int(form.split(".")[1].rstrip("f}")))
     for i in range(n):
         want = [ids[i], cp[i] if isinstance(cp, list) else cp] + list(xyz[i]) + [cd[i] if isinstance(cd, list) else cd,
                                                                                   ps or 0, seid or 0]
@@ -1120,7 +1223,7 @@ def _o_grids(case):
             if got[k] != want[k]:
                 return ("grid-roundtrip-field%d" % (k + 2), "GRID integer field differs", got, want)
         for k in (2, 3, 4):
-            if abs(got[k] - want[k]) > tol + 4 * np.spacing(abs(want[k])):
+            if abs(got[k] - want[k]) > _val_tol(form, want[k]):
                 return ("grid-values", "GRID coordinate differs by more than the written precision", got, want)
     return None
 
@@ -1138,6 +1241,11 @@ def _o_uset(case):
         ref = 0 if (k == 0 or rng.random() < 0.3) else int(order[rng.integers(0, len(order))])
         typ = int(rng.integers(1, 4))
         A = rng.uniform(-5, 5, 3)
+        if case.get("mixed") and (k == 0 or ref == 0):
+            # origin components spanning up to ~12 decades (tiny non-zero next to large)
+            A = np.array([rng.choice([-1.0, 1.0]) * rng.uniform(1, 9.99) * 10.0 ** int(rng.integers(-6, 6))
+                          if rng.random() > 0.2 else 0.0 for _ in range(3)])
+            ref = 0
         B = A + rng.uniform(0.5, 2, 3) * rng.choice([-1, 1], 3)
         C = A + np.cross(B - A, rng.uniform(-1, 1, 3) + 0.1) + 0.3 * (B - A)
         reftype = 1 if ref == 0 else int(systems[ref][0, 1])
@@ -1188,6 +1296,17 @@ def _o_uset(case):
     if err > 2e-6 * scale:
         i = int(np.argmax(np.abs(a - b).max(axis=1)))
         return ("uset-roundtrip-values", "USET geometry differs by %.3g (scale %.3g)" % (err, scale), a[i].tolist(), b[i].tolist())
+    # origins of the output coordinate systems (rows dof 3): every component to 9 significant digits
+    # of its own magnitude (the cards are written with {:16.8e}); noise floor 1e-15 of the card's largest value
+    dofs = uset.index.get_level_values("dof")
+    o1, o2 = b[dofs == 3], a[dofs == 3]
+    for r1, r2 in zip(o1, o2):
+        big = np.abs(r1).max() + 2.0  # B and C lie within ~2 of the origin
+        for x1, x2 in zip(r1, r2):
+            if abs(x1 - x2) > 1.5e-8 * abs(x1) + 1e-14 * big and abs(x1) > 1e-13 * big:
+                return ("uset-origin-small-value-lost" if x2 == 0.0 else "uset-origin-values",
+                        "origin component of an output coordinate system differs by more than the written precision "
+                        "of its own magnitude", r2.tolist(), r1.tolist())
     used = sorted(set(int(c) for c in cout if c))
     rd = _read(bulk.rdcord2cards, text)
     if isinstance(rd, str) or any(c not in rd for c in used):
@@ -1280,8 +1399,44 @@ def _gen_oracle_cases(ctx):
             "ps": rng.choice(["", "", 123456, 123]),
             "seid": rng.choice(["", "", 5]),
         }))
-    for _ in range(ctx.pick(40, 400)):
-        cases.append(("uset", {"seed": rng.randint(0, 2 ** 31), "ncs": rng.randint(0, 4), "ngrids": rng.randint(1, 6)}))
+    for k in range(ctx.pick(60, 600)):
+        cases.append(("uset", {"seed": rng.randint(0, 2 ** 31), "ncs": rng.randint(0 if k % 2 else 1, 4), "ngrids": rng.randint(1, 6),
+                               "mixed": k % 2 == 0}))
+    # GRID coordinates of mixed magnitude (fixed-point formats: absolute precision; e-formats: relative)
+    for _ in range(ctx.pick(120, 1200)):
+        n = rng.randint(1, 5)
+        form = rng.choice(["{:16.8f}", "{:16.8e}", "{:16.9E}", "{:16.6f}"])
+        cases.append(("grids", {
+            "ids": sorted(rng.sample(range(1, 99999999), n)), "cp": rng.randint(0, 99),
+            "xyz": [[_mixed(rng, -6, 5) for _ in range(3)] for _ in range(n)], "cd": rng.randint(0, 99),
+            "form": form, "ps": "", "seid": "",
+        }))
+    # CORD2x cards whose nine values span many decades
+    cases.append(("cord", {"systems": [(10, 1, 0, [[254000.0, 0.0, 2e-4], [254000.0, 0.0, 1.0002], [254001.0, 0.0, 2e-4]])]}))
+    cases.append(("cord", {"systems": [(11, 1, 0, [[0.0, 0.0, 3e-10], [0.0, 0.0, 1.0], [1.0, 3e-10, 0.0]])]}))
+    cases.append(("cord", {"systems": [(12, 2, 0, [[1e6, -2e-6, 0.0], [1e6, -2e-6, 1.0], [1e6 + 1, 0.0, 0.0]])]}))
+    for _ in range(ctx.pick(150, 1500)):
+        systems = []
+        for k in range(rng.randint(1, 3)):
+            typ = rng.randint(1, 3)
+            style = rng.random()
+            if style < 0.5:
+                abc = [[_mixed(rng, -6, 6, 0.2) for _ in range(3)] for _ in range(3)]
+            else:  # a far origin with tiny components, unit axis points next to it
+                A = [_mixed(rng, 3, 6, 0.0), _mixed(rng, -6, -2, 0.3), _mixed(rng, -6, 0, 0.3)]
+                rng.shuffle(A)
+                abc = [A, [A[0], A[1], A[2] + 1.0], [A[0] + 1.0, A[1], A[2]]]
+            systems.append((10 * (k + 1) + rng.randint(0, 9), typ, rng.choice([0, 0, 5]), abc))
+        cases.append(("cord", {"systems": systems}))
+    # form-9 DMIG with column numbers that are not 1..n
+    for cols in ([2, 5, 9], [7], [3, 1], [1, 2, 3], [12, 4]):
+        nr = rng.randint(1, 4)
+        rows = _gen_labels(rng, nr)
+        vals = np.array([[rng.choice([0.0, rng.uniform(-9, 9)]) for _ in cols] for _ in range(nr)])
+        vals[0, 0] = 1.5
+        vals[-1, -1] = -2.5
+        cases.append(("dmig", {"name": "F9X", "single": True, "mtype": rng.choice([1, 2]), "rowids": rows,
+                               "colids": [(c, 0) for c in cols], "kind": "form9", "values": vals}))
     return cases
 
 
@@ -1337,6 +1492,9 @@ def _run_oracle_case(kind, case, known):
         return [r] if r else []
     if kind == "uset":
         r = _o_uset(case)
+        return [r] if r else []
+    if kind == "cord":
+        r = _o_cord(case)
         return [r] if r else []
     return []
 
